@@ -392,6 +392,10 @@ func (iv *Inv) expect(t *Tree) *Expectation {
 		}
 		return w.Bytes(), false
 	}
+	if iv.Stdin != nil && iv.Preserve != "" {
+		ex.Rejected, ex.Reason, ex.ExitNZ = true, "--preserve cannot be used with stdin or stdout", true
+		return ex
+	}
 	if iv.Stdin != nil {
 		mt, ok := iv.typeOf("")
 		if iv.Type == "" || !ok {
@@ -401,6 +405,10 @@ func (iv *Inv) expect(t *Tree) *Expectation {
 		want, failed := minifyOne(mt, iv.Stdin)
 		ex.Jobs = []Job{{Dst: iv.Output, Type: mt, Want: want, Failed: failed}}
 		ex.ExitNZ = failed
+		return ex
+	}
+	if iv.Preserve != "" && (iv.Stdin != nil || iv.Output == "") {
+		ex.Rejected, ex.Reason, ex.ExitNZ = true, "--preserve cannot be used with stdin or stdout", true
 		return ex
 	}
 	dirDst := iv.Output != "" && (strings.HasSuffix(iv.Output, "/") || (!iv.Bundle && len(iv.Inputs) > 1))
